@@ -51,15 +51,20 @@ AllHits(motifs, seqs, thr, rc) ==
                     : sd \in (IF rc THEN {0, 1} ELSE {0}) } : m \in DOMAIN motifs, i \in DOMAIN seqs }
 RCSeq(x) == [i \in 1..Len(x) |-> IF x[Len(x) + 1 - i] = -1 THEN -1 ELSE 3 - x[Len(x) + 1 - i]]
 \* the same hit set computed with the DP tail (used for wider motifs in trace validation)
-ThreshBinT(T, M, thr) ==
-    LET B == { b \in (LoB(M) - 1)..(HiB(M) + 2) : TailIn(T, M, b) * thr[2] < thr[1] * Pow4(W(M)) } IN
+\* lt: how the implementation's FLOAT table resolved a mathematical tie "tail probability = threshold" for this motif and strand
+\* (log2 of a tail that is not a power of two is rounded, so a tie may come out on either side; the recorded event says which).
+\* Without a tie (every enumerated model threshold, most recorded ones) lt is irrelevant.
+ThreshBinT(T, M, thr, lt) ==
+    LET B == { b \in (LoB(M) - 1)..(HiB(M) + 2) : \/ TailIn(T, M, b) * thr[2] < thr[1] * Pow4(W(M))
+                                                  \/ lt /\ TailIn(T, M, b) * thr[2] = thr[1] * Pow4(W(M)) } IN
     CHOOSE b \in B : \A v \in B : b <= v
-AllHitsDP(motifs, seqs, thr, rc) ==
+AllHitsDPT(motifs, seqs, thr, rc, lt) ==
     UNION { UNION { LET Mx == IF sd = 0 THEN motifs[m] ELSE RCMotif(motifs[m])
                         T == TailTable(Mx)
-                        tb == ThreshBinT(T, Mx, thr) IN
+                        tb == ThreshBinT(T, Mx, thr, lt[m][sd + 1]) IN
                     UNION { { <<m - 1, i - 1, q, q + W(Mx), sd, WindowScore(Mx, seqs[i], q), TailIn(T, Mx, WindowScore(Mx, seqs[i], q))>> :
                               q \in { q \in 0..(Len(seqs[i]) - W(Mx)) : WindowScore(Mx, seqs[i], q) > tb } } : i \in DOMAIN seqs }
                     : sd \in (IF rc THEN {0, 1} ELSE {0}) } : m \in DOMAIN motifs }
+AllHitsDP(motifs, seqs, thr, rc) == AllHitsDPT(motifs, seqs, thr, rc, [m \in DOMAIN motifs |-> <<FALSE, FALSE>>])
 Mirror(H, seqs) == { <<h[1], h[2], Len(seqs[h[2] + 1]) - h[4], Len(seqs[h[2] + 1]) - h[3], 1 - h[5], h[6], h[7]>> : h \in H }
 =============================================================================
